@@ -9,10 +9,83 @@ import (
 	"go/ast"
 	"go/token"
 	"go/types"
+	"sort"
+	"strings"
 	"time"
 )
 
+var c15Stateless = []string{
+	"dilithium.Verify", "dilithium.Open", "dilithium.ExtractMessage", "dilithium.ExtractSignature", "dilithium.GetDilithiumDescriptor",
+	"dilithium.GetDilithiumAddressFromPK", "dilithium.IsValidDilithiumAddress",
+	"dilithium.Dilithium.GetPK", "dilithium.Dilithium.GetSK", "dilithium.Dilithium.GetSeed", "dilithium.Dilithium.GetHexSeed",
+	"dilithium.Dilithium.GetMnemonic", "dilithium.Dilithium.Seal", "dilithium.Dilithium.Sign", "dilithium.Dilithium.GetAddress",
+	"dilithium.NewDilithiumFromSeed", "dilithium.NewDilithiumFromMnemonic", "dilithium.NewDilithiumFromHexSeed",
+	"xmss.Verify", "xmss.VerifyWithCustomWOTSParamW", "xmss.GetXMSSAddressFromPK", "xmss.IsValidXMSSAddress",
+	"xmss.GetLegacyXMSSAddressFromPK", "xmss.IsValidLegacyXMSSAddress",
+	"xmss.NewQRLDescriptor", "xmss.NewQRLDescriptorFromBytes", "xmss.NewQRLDescriptorFromExtendedSeed", "xmss.NewQRLDescriptorFromExtendedPK",
+	"xmss.LegacyQRLDescriptorFromBytes", "xmss.LegacyQRLDescriptorFromExtendedPK",
+	"xmss.QRLDescriptor.GetHeight", "xmss.QRLDescriptor.GetHashFunction", "xmss.QRLDescriptor.GetSignatureType", "xmss.QRLDescriptor.GetAddrFormatType", "xmss.QRLDescriptor.GetBytes",
+	"xmss.NewWOTSParams", "xmss.NewXMSSParams",
+	"misc.MnemonicToSeedBin", "misc.MnemonicToExtendedSeedBin", "misc.SeedBinToMnemonic", "misc.ExtendedSeedBinToMnemonic",
+	"dilithiumjs.DilithiumVerify", "dilithiumjs.GetDilithiumAddressFromPK", "dilithiumjs.IsValidDilithiumAddress",
+	"xmssjs.XMSSVerify", "xmssjs.GetXMSSAddressFromPK", "xmssjs.IsValidXMSSAddress",
+}
+
+var c15XMSSMethods = []string{
+	"xmss.XMSS.SetIndex", "xmss.XMSS.Sign", "xmss.XMSS.GetHeight", "xmss.XMSS.GetPKSeed", "xmss.XMSS.GetSeed", "xmss.XMSS.GetExtendedSeed",
+	"xmss.XMSS.GetHexSeed", "xmss.XMSS.GetMnemonic", "xmss.XMSS.GetRoot", "xmss.XMSS.GetPK", "xmss.XMSS.GetSK", "xmss.XMSS.GetAddress",
+	"xmss.XMSS.GetLegacyAddress", "xmss.XMSS.GetIndex",
+}
+
+var c15Constructors = []string{"xmss.NewXMSSFromSeed", "xmss.NewXMSSFromExtendedSeed", "xmss.NewXMSSFromHeight", "dilithium.New", "dilithium.NewDilithiumFromSeed", "dilithium.NewDilithiumFromMnemonic", "dilithium.NewDilithiumFromHexSeed"}
+
+func effExtras(obs []EffOb) []ExtraResult {
+	var out []ExtraResult
+	for _, o := range obs {
+		out = append(out, ExtraResult{Name: o.Name, Backend: "effects", OK: o.OK, Cases: 1, Detail: o.Detail})
+	}
+	return out
+}
+
 func init() {
+	propConfigs["C15"] = &propConfig{
+		level: "proof",
+		extras: func(e *Engine, tier string, seed int) []ExtraResult {
+			ef := e.BuildEffects()
+			var obs []EffOb
+			// E1: no function of the library writes package-level memory (js.Object plumbing excluded)
+			var keys []string
+			for k := range ef.fns {
+				keys = append(keys, k)
+			}
+			sort.Strings(keys)
+			for _, k := range keys {
+				if strings.HasPrefix(k, "main.") || strings.HasPrefix(k, "dilithiumjs.DilithiumJS") || strings.HasPrefix(k, "xmssjs.XMSSJS") ||
+					strings.HasPrefix(k, "dilithiumjs.New") || strings.HasPrefix(k, "dilithiumjs.new") || strings.HasPrefix(k, "xmssjs.New") || strings.HasPrefix(k, "xmssjs.new") || strings.HasSuffix(k, ".init") {
+					continue
+				}
+				obs = append(obs, ef.obNoGlobalWrites(k))
+			}
+			// E2 + E3: the stateless API writes none of its arguments and is a function of them
+			for _, k := range c15Stateless {
+				obs = append(obs, ef.obWritesOnly(k, map[int]bool{}), ef.obPure(k))
+			}
+			// E4: XMSS methods write only memory reachable from their receiver; constructors return fresh memory
+			for _, k := range c15XMSSMethods {
+				obs = append(obs, ef.obWritesOnly(k, map[int]bool{0: true}), ef.obPure(k))
+			}
+			for _, k := range c15Constructors {
+				obs = append(obs, ef.obFreshResult(k), ef.obWritesOnly(k, map[int]bool{}))
+			}
+			return effExtras(obs)
+		},
+		trusted: []string{
+			"no schedule is executed and no race detector is run: data-race freedom follows from the frame/purity obligations by the Go memory model's DRF guarantee (T9), which is assumed",
+			"thread-safety and determinism of crypto/rand, golang.org/x/crypto/sha3, crypto/sha256, encoding/hex, strings, bytes, fmt, reflect.DeepEqual are assumed (external, T4/T5)",
+			"misc.GetEndian uses unsafe; trusted (T6) as a constant function of the host",
+			"js.Object constructors and methods (gopherjs plumbing) are out of scope",
+		},
+	}
 	propConfigs["C14"] = &propConfig{
 		level: "proof",
 		extras: func(e *Engine, tier string, seed int) []ExtraResult {
@@ -63,8 +136,10 @@ func tailStr(s string, n int) string {
 }
 
 // linformCheck: every value stored into arr[...] inside fn is a Z_q-linear form of the array's entries:
-//   L ::= arr[i] | L + L | L - L | t (a local holding L) | montgomeryReduce(int64(C) * int64(L))
-//   C ::= literal | zetas[...] | -C | local assigned only C     (independent of the array)
+//
+//	L ::= arr[i] | L + L | L - L | t (a local holding L) | montgomeryReduce(int64(C) * int64(L))
+//	C ::= literal | zetas[...] | -C | local assigned only C     (independent of the array)
+//
 // and no array entry flows into an index, a loop bound or a branch condition.  With montgomeryReduce's
 // contract (result*2^32 == x (mod q), discharged under C12) each production is a Z_q-linear map, hence
 // the whole function is one.  No solver is involved; this is structural induction done by the engine.
